@@ -206,12 +206,22 @@ std::vector<int> os_script(Ctx &c, bool allow_perm) {
     std::vector<int> s;
     Rng &r = c.r;
     if (!c.faults) { return s; }
-    uint32_t n = r.chance(1, 2) ? 0 : r.geo(3);
-    if (n > 64) n = 64;
+    uint32_t n = 0;
+    if (!r.chance(1, 2)) {
+        uint32_t y = r.below(100);
+        static const uint32_t NB[] = {7, 8, 9, 15, 16, 17, 31, 32, 33, 63, 64, 65, 100, 127, 128, 129, 255, 256, 257};
+        if (y < 45) n = r.geo(3);
+        else if (y < 80) n = NB[r.below(19)];
+        else if (y < 97) n = 1 + r.below(300);
+        else n = 1000 + r.below(3000);
+    }
+    uint32_t comp = r.below(3); // 0 all EINTR, 1 all EAGAIN, 2 mixed
     for (uint32_t i = 0; i < n; i++) {
         uint32_t x = r.below(100);
-        if (x < 45) s.push_back(EINTR);
-        else if (x < 90) s.push_back(EAGAIN);
+        if (comp == 0) s.push_back(EINTR);
+        else if (comp == 1) s.push_back(EAGAIN);
+        else if (x < 45) s.push_back(EINTR);
+        else if (x < 90 || n > 64) s.push_back(EAGAIN);
         else s.push_back(2000 + (int)r.below(32)); // short read (only an event in the /dev/urandom build)
     }
     uint32_t t = r.below(100);
@@ -287,6 +297,17 @@ Op gen_prng(Ctx &c, GPrng &g, int obj, bool erase_bias, bool sys_only) {
         o.a = r.chance(1, 5) ? 0 : 1 + r.below(100);
         if (o.a == 0 && r.chance(1, 2)) o.flags |= F_NULLPTR;
         g.counter++;
+        if (r.chance(1, 12)) { // a run of feeds: budget edge, and (rarely) the 8/16-bit corners of the block counter
+            uint64_t left = g.counter > g.limit ? 0 : g.limit - g.counter;
+            uint32_t y = r.below(100);
+            uint64_t reps;
+            if (y < 55) reps = left + r.below(3);
+            else if (y < 90) reps = 1 + r.below(40);
+            else if (y < 96 || (c.armed != C16 && !(c.armed == C15 && c.thorough))) { static const uint64_t W8[] = {253, 254, 255, 256, 257}; reps = W8[r.below(5)]; }
+            else { static const uint64_t W16[] = {65533, 65534, 65535, 65536, 65537, 70000}; reps = W16[r.below(6)]; if (!c.thorough && r.chance(2, 3)) reps = 255; }
+            if (reps > 70000) reps = 70000;
+            if (reps > 0) { o.b = reps - 1; g.counter += reps - 1; }
+        }
         break;
     case P_RESEED:
         if (g.system) o.os.push_back(os_script(c, true)); else { int d = delivery(c); if (d != 32) o.del.push_back(d); }
@@ -375,7 +396,9 @@ int pick_tasks(Rng &r, bool heavy) {
 } // namespace
 
 // C18 baseline: all transient prefixes of length <= 5 over {EINTR, EAGAIN} x 7 terminals
-static const int TRNG_BASELINE = 63 * 7;
+static const uint32_t TRNG_LONG_N[] = {7, 8, 9, 15, 16, 17, 31, 32, 33, 63, 64, 65, 100, 127, 128, 129, 255, 256, 257, 1000, 4096};
+static const int TRNG_LONG = 21 * 2 * 2; // run length x {EINTR, EAGAIN} x {success, EIO}
+static const int TRNG_BASELINE = 63 * 7 + TRNG_LONG;
 // C16 baseline: all sequences over a 10-letter alphabet
 static uint64_t c16_baseline_count(bool thorough) { return thorough ? 111110ULL : 11110ULL; }
 
@@ -387,15 +410,22 @@ uint64_t baseline_count(const std::string &engine, int armed, bool thorough) {
 
 static Plan trng_baseline_plan(uint64_t idx) {
     Plan p; p.engine = "trng";
-    uint64_t pi = idx / 7, ti = idx % 7;
-    // prefix index -> word: lengths 0..5
     std::vector<int> s;
-    uint64_t len = 0, base = 0;
-    while (pi >= base + (1ULL << len)) { base += 1ULL << len; len++; }
-    uint64_t w = pi - base;
-    for (uint64_t i = 0; i < len; i++) s.push_back(((w >> i) & 1) ? EAGAIN : EINTR);
-    static const int T[] = {0, EIO, ENOSYS, EPERM, EFAULT, EINVAL, ENOENT};
-    s.push_back(T[ti]);
+    if (idx >= 63 * 7) { // homogeneous long runs of one transient error: retry caps / counters of any small width show here
+        uint64_t k = idx - 63 * 7;
+        uint32_t n = TRNG_LONG_N[k / 4];
+        for (uint32_t i = 0; i < n; i++) s.push_back((k & 1) ? EAGAIN : EINTR);
+        s.push_back((k & 2) ? EIO : 0);
+    } else {
+        uint64_t pi = idx / 7, ti = idx % 7;
+        // prefix index -> word: lengths 0..5
+        uint64_t len = 0, base = 0;
+        while (pi >= base + (1ULL << len)) { base += 1ULL << len; len++; }
+        uint64_t w = pi - base;
+        for (uint64_t i = 0; i < len; i++) s.push_back(((w >> i) & 1) ? EAGAIN : EINTR);
+        static const int T[] = {0, EIO, ENOSYS, EPERM, EFAULT, EINVAL, ENOENT};
+        s.push_back(T[ti]);
+    }
     TaskPlan tp;
     Op o = mk(T_GENERATE, 0); o.dseed = mix2(idx, 77) | 1; o.os.push_back(s); tp.ops.push_back(o);
     Op i1 = mk(P_INIT, 0); i1.flags = F_SYSTEM; i1.a = idx % 5; i1.dseed = mix2(idx, 78) | 1; i1.os.push_back(s); tp.ops.push_back(i1);
